@@ -185,8 +185,15 @@ func (e *engine) tryRebind(fn *ssa.Function, blk *block, res *fnResult) *fnResul
 	if (!hasUnmapped && rejectedUnknown == "") || (res.rejected != "" && rejectedUnknown == "") {
 		return res
 	}
-	if r2 := e.tryPositionalRename(fn, blk); r2 != nil {
-		return r2
+	base := e.positionalRenames(fn)
+	if len(base) > 0 {
+		if r2 := e.acceptUnder(fn, blk, base, "renamed variables recognised by position and type against the locals snapshot"); r2 != nil {
+			return r2
+		}
+		// some clauses may still not bind (a group of variables changed shape): continue the search on top of these renames
+		if rb := e.verifyFuncWith(fn, blk, base); rb.rejected == "" || strings.Contains(rb.rejected, "unknown name") {
+			res = rb
+		}
 	}
 	vars := codeVars(fn)
 	isVar := map[string]bool{}
@@ -205,6 +212,9 @@ func (e *engine) tryRebind(fn *ssa.Function, blk *block, res *fnResult) *fnResul
 	// names of the contract that used to be variables of the function and are not any more
 	var missing []string
 	for n := range used {
+		if _, done := base[n]; done {
+			continue
+		}
 		if isVar[n] || ghosts[n] || strings.HasPrefix(n, "DOLLAR__") || n == "nil" || n == "true" || n == "false" || n == "rangeindex" || n == "len" || n == "dom" || n == "val" || n == "closed" || n == "sent" ||
 			n == "rcvd" || n == "full" || n == "fdom" || n == "fval" || n == "allocated" || n == "cap" {
 			continue
@@ -227,6 +237,9 @@ func (e *engine) tryRebind(fn *ssa.Function, blk *block, res *fnResult) *fnResul
 			}
 		}
 	}
+	if os.Getenv("KVC_DEBUG_REBIND") != "" {
+		fmt.Fprintf(os.Stderr, "REBIND %s: base=%v missing=%v unknown=%v\n", canonName(fn), base, missing, unknown)
+	}
 	if len(unknown) == 0 || len(unknown) > 2 {
 		return res
 	}
@@ -237,11 +250,18 @@ func (e *engine) tryRebind(fn *ssa.Function, blk *block, res *fnResult) *fnResul
 			return res
 		}
 	}
+	taken := map[string]bool{}
+	for _, v := range base {
+		taken[v] = true
+	}
 	var cands []string
 	for _, v := range vars {
-		if !used[v] {
+		if !used[v] && !taken[v] {
 			cands = append(cands, v)
 		}
+	}
+	if os.Getenv("KVC_DEBUG_REBIND") != "" {
+		fmt.Fprintf(os.Stderr, "REBIND %s: cands=%v\n", canonName(fn), cands)
 	}
 	if len(cands) == 0 || len(cands) > 24 {
 		return res
@@ -263,6 +283,11 @@ func (e *engine) tryRebind(fn *ssa.Function, blk *block, res *fnResult) *fnResul
 	dir, _ := os.MkdirTemp("", "kvc-rebind")
 	defer os.RemoveAll(dir)
 	for _, alias := range tries {
+		for k, v := range base {
+			if _, ok := alias[k]; !ok {
+				alias[k] = v
+			}
+		}
 		r2 := e.verifyFuncWith(fn, blk, alias)
 		if r2.rejected != "" {
 			continue
@@ -398,22 +423,51 @@ func (e *engine) snapshotFor(name string) []localVar {
 	return e.localsSnap[name]
 }
 
-func (e *engine) tryPositionalRename(fn *ssa.Function, blk *block) *fnResult {
+func (e *engine) positionalRenames(fn *ssa.Function) map[string]string {
 	old := e.snapshotFor(canonName(fn))
 	cur := orderedLocals(fn)
-	if len(old) == 0 || len(old) != len(cur) {
+	if len(old) == 0 {
 		return nil
 	}
-	alias := map[string]string{}
-	for i := range old {
-		if old[i].typ != cur[i].typ {
-			return nil
-		}
-		if old[i].name != cur[i].name {
-			if prev, ok := alias[old[i].name]; ok && prev != cur[i].name {
-				return nil // the same old name declared several times and renamed differently: not handled
+	// parameters, captured variables and locals are aligned separately: a group whose shape (number and types)
+	// is unchanged yields renames by position; a group whose shape changed yields none
+	group := func(vs []localVar, kind string) []localVar {
+		var out []localVar
+		for _, v := range vs {
+			k := "local"
+			if strings.HasPrefix(v.typ, "param:") {
+				k = "param"
+			} else if strings.HasPrefix(v.typ, "free:") {
+				k = "free"
 			}
-			alias[old[i].name] = cur[i].name
+			if k == kind {
+				out = append(out, v)
+			}
+		}
+		return out
+	}
+	alias := map[string]string{}
+	for _, kind := range []string{"param", "free", "local"} {
+		o, c := group(old, kind), group(cur, kind)
+		if len(o) != len(c) {
+			continue
+		}
+		same := true
+		for i := range o {
+			if o[i].typ != c[i].typ {
+				same = false
+			}
+		}
+		if !same {
+			continue
+		}
+		for i := range o {
+			if o[i].name != c[i].name {
+				if prev, ok := alias[o[i].name]; ok && prev != c[i].name {
+					return nil // the same old name declared several times and renamed differently: not handled
+				}
+				alias[o[i].name] = c[i].name
+			}
 		}
 	}
 	if len(alias) == 0 {
@@ -429,9 +483,14 @@ func (e *engine) tryPositionalRename(fn *ssa.Function, blk *block) *fnResult {
 		// the old name is still a variable of this function or of its enclosing function / sibling closures:
 		// the code now uses a different variable, which is not a rename
 		if curNames[o] || family[o] {
-			return nil
+			delete(alias, o)
 		}
 	}
+	return alias
+}
+
+// acceptUnder verifies fn against blk under the given renaming and discharges every obligation; nil unless all pass.
+func (e *engine) acceptUnder(fn *ssa.Function, blk *block, alias map[string]string, how string) *fnResult {
 	r2 := e.verifyFuncWith(fn, blk, alias)
 	if r2.rejected != "" {
 		return nil
@@ -458,7 +517,7 @@ func (e *engine) tryPositionalRename(fn *ssa.Function, blk *block) *fnResult {
 		parts = append(parts, fmt.Sprintf("%s -> %s", k, v))
 	}
 	sort.Strings(parts)
-	r2.notes = append(r2.notes, "renamed variables recognised by position and type against the locals snapshot (every obligation discharged under the renaming): "+strings.Join(parts, ", "))
+	r2.notes = append(r2.notes, how+" (every obligation discharged under the renaming): "+strings.Join(parts, ", "))
 	for _, o := range todo {
 		o.prebaked = true
 	}
